@@ -725,7 +725,8 @@ def solver_e2e_job(job):
         best = 1000000 if not onp.isfinite(b) else int(round(b))
         member_ok = any(onp.allclose(p, it["best_member"], atol=1e-6) and (onp.isfinite(l) and int(round(l)) == best) for p, l in seen[: it["n1"]])
         tr.append(dict(losses=L, inbounds=inb, best=best, member_ok=bool(member_ok)))
-    return dict(trace=dict(id=f"{job['id']}", iters=tr), meta=dict(solver=kind, dim=D, nan_seen=sum(1 for it in tr for l in it["losses"] if l == -1),
+    return dict(trace=dict(id=f"{job['id']}", iters=tr), meta=dict(solver=kind, strategy=(strat if kind == "evo" else "cem"), dim=D,
+                                                                  nan_seen=sum(1 for it in tr for l in it["losses"] if l == -1),
                                                                   cands=sum(len(it["losses"]) for it in tr)))
 
 
@@ -783,7 +784,9 @@ def c18(tier, seed):
         if v["verdict"] != "accept":
             first_oob = next((k for k, it in enumerate(t["iters"]) if not all(it["inbounds"])), None)
             all_nan_before = first_oob is not None and any(all(l == -1 for l in it["losses"]) for it in t["iters"][:first_oob])
-            rep.violation(dict(clause=v["clause"], solver=m["solver"], all_nan_population_before=bool(all_nan_before)),
+            some_nan_before = first_oob is not None and any(any(l == -1 for l in it["losses"]) for it in t["iters"][:first_oob])
+            rep.violation(dict(clause=v["clause"], solver=m["solver"], strategy=m.get("strategy"), all_nan_population_before=bool(all_nan_before),
+                               nan_loss_in_an_earlier_population=bool(some_nan_before)),
                           dict(kind="solver_run", job=job, verdict=v), text=f"{t['id']} ({m}): {v['detail'][:600]}")
         elif m["nan_seen"] > 0:
             rep.nontrivial(t["id"])
